@@ -21,6 +21,7 @@ type PubFunc func(context.Context, cid.Cid) error
 type Republisher struct {
 	pubfunc          PubFunc
 	update           chan cid.Cid
+	updateLock       sync.Mutex // held while replacing or grabbing the value in update
 	immediatePublish chan chan struct{}
 
 	cancel    func()
@@ -84,17 +85,19 @@ func (rp *Republisher) Close() error {
 // Update the current value. The value will be published after a delay but each
 // consecutive call to Update may extend this delay up to TimeoutLong.
 func (rp *Republisher) Update(c cid.Cid) {
+	// Replace the pending value, if any, atomically with respect to the
+	// publisher grabbing the latest value for WaitPub or Close. Otherwise the
+	// publisher can find the channel empty between the drain and the send,
+	// and tell the waiter that there is nothing to publish.
+	rp.updateLock.Lock()
+	defer rp.updateLock.Unlock()
 	select {
 	case <-rp.update:
-		select {
-		case rp.update <- c:
-		default:
-			// Don't try again. If we hit this case, there's a
-			// concurrent publish and we can safely let that
-			// concurrent publish win.
-		}
-	case rp.update <- c:
+	default:
 	}
+	// Only Update sends, and it does so holding the lock, so this never
+	// blocks.
+	rp.update <- c
 }
 
 // Run contains the core logic of the `Republisher`. It calls the user-defined
@@ -164,10 +167,12 @@ func (rp *Republisher) run(ctx context.Context, timeoutShort, timeoutLong time.D
 			continue
 		case waiter = <-immediatePublish:
 			// Make sure to grab the *latest* value to publish.
+			rp.updateLock.Lock()
 			select {
 			case toPublish = <-rp.update:
 			default:
 			}
+			rp.updateLock.Unlock()
 
 			// Avoid publishing duplicate values
 			if lastPublished.Equals(toPublish) {
